@@ -32,6 +32,12 @@ def main():
         print(json.dumps({"error": "patch does not apply", "stderr": a.stderr[-500:]}))
         sh(f"git -C {REPO} reset -q --hard HEAD")
         return 2
+    # the evidence files describe the unchanged tree: what the checks write while the seed is applied is put back afterwards
+    import shutil
+    import tempfile
+
+    ev_backup = tempfile.mkdtemp(prefix="dippy-verif-evidence-")
+    shutil.copytree(os.path.join(VERIF, "evidence"), os.path.join(ev_backup, "evidence"))
     try:
         r1 = sh(f"PYTHONPATH={REPO}/src /venv/bin/python {demo} {REPO}", cwd="/tmp")
         res["demo_patched_exit"] = r1.returncode
@@ -60,6 +66,9 @@ def main():
             res["checks"][p] = info
     finally:
         sh(f"git -C {REPO} reset -q --hard HEAD; git -C {REPO} clean -fdq src")
+        for f in os.listdir(os.path.join(ev_backup, "evidence")):
+            shutil.copy2(os.path.join(ev_backup, "evidence", f), os.path.join(VERIF, "evidence", f))
+        shutil.rmtree(ev_backup, ignore_errors=True)
     print(json.dumps(res, indent=1, ensure_ascii=True, default=str))
     return 0
 
